@@ -33,21 +33,24 @@ ANCHORS = (
     "xgi/utils/utilities.py",
 )
 RULE = (
-    "case = one seeded public callable (round robin over the introspected list) x one parameter tuple (the C16 recipes; inputs rebuilt from plain data for "
-    "every call) x one seed x history-before (0-3 steps) x schedule-between (0-4 steps) over the alphabet {draw k from random, draw k from numpy.random, "
+    "case = one seeded public callable (round robin over the introspected list) x one parameter tuple (the C16 recipes, small regime in two rounds of three, "
+    "sparse / large regime in the third; inputs rebuilt from plain data for every call) x one seed (plain int / numpy integer / >= 2**32) x history-before (0-3 steps) x schedule-between (0-4 steps) over the alphabet {draw k from random, draw k from numpy.random, "
     "random.seed(x), numpy.random.seed(y), same callable with another seed / seed=None, same callable with other parameters, another seeded callable}; "
     "rounds 0-7 of every callable use the empty schedule and each single-step schedule. one evaluation = one comparison of the two outputs. "
     "distinct_nontrivial = distinct (callable, parameters, seed, schedule) whose output is non-empty"
 )
 ASSUMPTIONS = [
     "one interpreter process, PYTHONHASHSEED fixed; both executions get equal but separately built arguments (mutable arguments such as degree dicts are fresh copies)",
-    "integer seeds in [0, 2**32); parameters are admissible (block probabilities < 1 for uniform_HSBM: p = 1 is C16's finding); when the first execution raises, the second "
-    "must raise the same exception type (counted as raised-both, not compared further)",
+    "seeds: 0, small and large plain ints below 2**32 (80 %), numpy integers (10 %), ints of 2**32 and more (10 %); the last two classes may be refused by random.seed / "
+    "numpy.random.seed / networkx (TypeError / ValueError): then both executions must refuse alike (counted as raised-both, not compared further)",
+    "parameters are admissible; every third round of a callable uses the sparse / large regime (tiny probabilities 1e-18 .. 1e-3 with n up to 500 so that a handful of edges "
+    "is expected, degree-type parametrisations, probabilities as numpy scalars / arrays / Python ints, 300-6000 node Chung-Lu / DCSBM sequences, layouts on 40-510 nodes)",
+    "the classes of the argument of `geometric` that were drawn with are counted by a pass-through wrapper around the name in the generator modules (harness side)",
     "interleaved calls that raise are ignored as schedule steps (counted under schedule-step-raised)",
     "spring layouts are compared bit for bit: networkx documents its layouts as deterministic for an integer seed",
 ]
 TECHNIQUE = "runtime monitoring: metamorphic two-execution monitor under injected schedules of RNG consumers"
-CASE_TIMEOUT = 120
+CASE_TIMEOUT = 30
 
 XGIError = xgi.exception.XGIError
 
@@ -141,8 +144,14 @@ def net_builder(rng, cls=None, min_nodes=3, connected_cover=False):
 
 def r_random_hypergraphs(rng):
     n = rng.randint(3, 8)
-    ps = [interior(rng, 0.1, 0.9) for _ in range(rng.randint(1, 3))]
-    return f"n={n}, ps={ps}", lambda: ((n, list(ps)), {})
+    ps = [rng.choice([interior(rng, 0.1, 0.9), interior(rng, 0.1, 0.9), np.float64(interior(rng, 0.1, 0.9)), 0, 1]) for _ in range(rng.randint(1, 3))]
+    if rng.random() < 0.25:
+        return f"n={n}, ps=np.array({ps})", lambda: ((n, np.array(ps, dtype=float)), {})
+    if rng.random() < 0.2:
+        d = rng.randint(1, 3)
+        x = float(interior(rng, 0.1, 0.9))
+        return f"n={n}, ps={x}, order={d}", lambda: ((n, x, d), {})
+    return f"n={n}, ps={ps!r}", lambda: ((n, list(ps)), {})
 
 
 def r_chung_lu(rng):
@@ -227,7 +236,7 @@ def r_uniform_HSBM(rng):
     sizes = [rng.randint(1, 4) for _ in range(nb)]
     p = np.zeros((nb,) * m)
     for blk in product(range(nb), repeat=m):
-        p[blk] = rng.choice([0.0, interior(rng), interior(rng)])
+        p[blk] = rng.choice([0.0, 1.0, interior(rng), interior(rng), interior(rng)])
     return f"n={sum(sizes)}, m={m}, p={p.tolist()}, sizes={sizes}", lambda: ((sum(sizes), m, p.copy(), list(sizes)), {})
 
 
@@ -235,6 +244,9 @@ def r_uniform_erdos_renyi(rng):
     multi = rng.random() < 0.4
     m = rng.randint(1, 3)
     n = rng.randint(max(m, 2), 6 if multi else 8)
+    if rng.random() < 0.15:  # probability 1 (int or float): complete, or every index through geometric(1) with multiedges
+        n, p = min(n, 4), rng.choice([1, 1.0, np.float64(1.0)])
+        return f"n={n}, m={m}, p={p!r}, multiedges={multi}", lambda: ((n, m, p), {"multiedges": multi})
     if rng.random() < 0.3:
         p, p_type = rng.choice([0.5, 1, 1.5]), "degree"
         if c16.er_q(n, m, p, p_type, multi) >= 1:
@@ -279,7 +291,8 @@ def r_bipartite_spring(rng):
 def r_spectral_clustering(rng):
     desc, build, pool, edges = net_builder(rng, cls="Hypergraph", min_nodes=4, connected_cover=True)
     k = rng.randint(2, min(3, len(pool) - 1))
-    kw = {"max_iter": rng.choice([10, 1000])} if rng.random() < 0.3 else {}
+    # k-means runs all max_iter rounds (its convergence test compares with the initial assignment): keep max_iter small, the default rarely
+    kw = {"max_iter": rng.choice([5, 10, 30, 100])} if rng.random() < 0.95 else {}
     return f"H={desc}, k={k}, {kw}", lambda: ((build(), k), dict(kw))
 
 
@@ -308,8 +321,210 @@ RECIPES = {
 }
 
 
-def recipe_for(q):
-    return RECIPES.get(short_name(q))
+# ---------------------------------------------------------------------------------
+# sparse / large regime: tiny probabilities (1e-7 .. 1e-3) with n chosen so that a handful of edges is expected, probabilities as
+# numpy scalars / arrays / Python ints, degree-type parametrisations with large n, layouts on enough nodes for networkx's sparse solver
+# ---------------------------------------------------------------------------------
+def big_net_builder(rng, n=None, cls="Hypergraph", cover=False):
+    n = n or rng.randint(30, 80)
+    pool = list(range(n))
+    edges = [rng.sample(pool, rng.randint(2, 4)) for _ in range(rng.randint(n // 3, n))]
+    if cover:
+        edges += [[a, a + 1] for a in range(n - 1)]
+
+    def build():
+        if cls == "SimplicialComplex":
+            S = xgi.SimplicialComplex()
+            S.add_nodes_from(pool)
+            S.add_simplices_from([list(e) for e in edges])
+            return S
+        H = xgi.Hypergraph()
+        H.add_nodes_from(pool)
+        for e in edges:
+            H.add_edge(list(e))
+        return H
+
+    return f"{cls}(nodes=range({n}), edges={short(edges, 400)})", build, pool, edges
+
+
+def s_fast_random(rng):
+    n, ps, order, orders = c16.sparse_rh(rng)
+    cp = (lambda x: x.copy()) if isinstance(ps, np.ndarray) else list
+    return f"n={n}, ps={ps!r}, order={order!r}", lambda: ((n, cp(ps), order if order is None else cp(order)), {})
+
+
+def s_random_hypergraph(rng):  # enumerates all combinations: stays small; probabilities as numpy scalars / arrays / ints
+    n = rng.randint(4, 12)
+    ps = [rng.choice([np.float64(interior(rng, 0.001, 0.2)), 0, 1, interior(rng, 0.0005, 0.05)]) for _ in range(rng.randint(1, 2))]
+    if rng.random() < 0.4:
+        return f"n={n}, ps=np.array({ps})", lambda: ((n, np.array(ps, dtype=float)), {})
+    return f"n={n}, ps={ps!r}", lambda: ((n, list(ps)), {})
+
+
+def s_chung_lu(rng):
+    k1, k2 = c16.large_bipartite(rng, sizes=(300, 600, 1500, 6000))
+    return f"k1: {len(k1)} nodes with degrees 1-3 (sum {sum(k1.values())}), k2: {len(k2)} edges with sizes 1-3 [large_bipartite]", lambda: ((dict(k1), dict(k2)), {})
+
+
+def s_dcsbm(rng):
+    k1, k2, g1, g2, omega = c16.large_bipartite(rng, groups=True, sizes=(300, 600, 1500, 6000))
+    return f"{len(k1)} nodes, {len(k2)} edges, 2 x 2 groups, omega={omega.tolist()} [large_bipartite]", lambda: ((dict(k1), dict(k2), dict(g1), dict(g2), omega.copy()), {})
+
+
+def s_watts_strogatz(rng):
+    d, k, l = rng.randint(2, 3), rng.choice([2, 4]), rng.randint(0, 1)
+    n = rng.randint(30, 200)
+    p = rng.choice([1e-3, 0.02, np.float64(0.1), 0.3])
+    return f"n={n}, d={d}, k={k}, l={l}, p={p!r}", lambda: ((n, d, k, l, p), {})
+
+
+def s_shuffle_hyperedges(rng):
+    desc, build, pool, edges = big_net_builder(rng)
+    order = len(rng.choice(edges)) - 1
+    p = rng.choice([1, 1.0, np.float64(0.5), 0.05])
+    return f"S={desc}, order={order}, p={p!r}", lambda: ((build(), order, p), {})
+
+
+def big_graph_builder(rng):
+    n = rng.randint(20, 60)
+    pe = rng.uniform(2, 5) / n
+    edges = [(a, b) for a in range(n) for b in range(a + 1, n) if rng.random() < pe]
+
+    def build():
+        g = nx.Graph()
+        g.add_nodes_from(range(n))
+        g.add_edges_from(edges)
+        return g
+
+    return f"nx.Graph(range({n}), {short(edges, 300)})", build
+
+
+def s_flag_complex(rng):
+    desc, build = big_graph_builder(rng)
+    mo = rng.randint(2, 3)
+    ps = [rng.choice([np.float64(0.5), 0.3, 1, 0.05]) for _ in range(mo - 1)]
+    return f"G={desc}, max_order={mo}, ps={ps!r}", lambda: ((build(),), {"max_order": mo, "ps": list(ps)})
+
+
+def s_flag_complex_d2(rng):
+    desc, build = big_graph_builder(rng)
+    p2 = rng.choice([np.float64(0.5), 0.3, 0.05])
+    return f"G={desc}, p2={p2!r}", lambda: ((build(),), {"p2": p2})
+
+
+def s_random_flag_complex(rng):
+    N = rng.randint(30, 200)
+    p = c16.np_typed(rng, rng.uniform(5, 60) / (N * (N - 1) / 2))
+    mo = rng.randint(1, 3)
+    return f"N={N}, p={p!r}, max_order={mo}", lambda: ((N, p), {"max_order": mo})
+
+
+def s_random_flag_complex_d2(rng):
+    N = rng.randint(30, 200)
+    p = c16.np_typed(rng, rng.uniform(5, 60) / (N * (N - 1) / 2))
+    return f"N={N}, p={p!r}", lambda: ((N, p), {})
+
+
+def s_random_simplicial_complex(rng):
+    N = rng.randint(20, 60)
+    ps = [rng.uniform(2, 15) / c16.comb(N, d + 1) for d in range(1, rng.randint(1, 2) + 1)]
+    if rng.random() < 0.4:
+        return f"N={N}, ps=np.array({ps})", lambda: ((N, np.array(ps)), {})
+    return f"N={N}, ps={ps}", lambda: ((N, list(ps)), {})
+
+
+def s_uniform_HPPM(rng):
+    n, m, k, eps, rho = c16.sparse_hppm(rng)
+    return f"n={n}, m={m}, k={k!r}, epsilon={eps}, rho={rho}", lambda: ((n, m, k, eps), {"rho": rho})
+
+
+def s_uniform_HSBM(rng):
+    n, m, p, sizes = c16.sparse_hsbm(rng)
+    return f"n={n}, m={m}, p={p.tolist()}, sizes={sizes}", lambda: ((n, m, p.copy(), list(sizes)), {})
+
+
+def s_uniform_erdos_renyi(rng):
+    n, m, p, p_type, multi = c16.sparse_er(rng)
+    return f"n={n}, m={m}, p={p!r}, p_type={p_type!r}, multiedges={multi}", lambda: ((n, m, p), {"p_type": p_type, "multiedges": multi})
+
+
+def s_configuration_model(rng):
+    n = rng.randint(40, 150)
+    k = {i: rng.randint(0, 3) for i in range(n)}
+    m = rng.randint(2, 4)
+    return f"k={short(k, 300)}, m={m}", lambda: ((dict(k), m), {})
+
+
+def s_random_layout(rng):
+    desc, build, pool, edges = big_net_builder(rng, cls=rng.choice(["Hypergraph", "SimplicialComplex"]))
+    return f"H={desc}", lambda: ((build(),), {})
+
+
+def s_spring(with_phantom, bipartite=False):
+    def r(rng):
+        # networkx switches to its sparse force-directed solver at 500 graph nodes (phantom / edge nodes count)
+        n = rng.choice([40, 60, 80, 510 if not (with_phantom or bipartite) else 300])
+        desc, build, pool, edges = big_net_builder(rng, n=n, cls="Hypergraph" if bipartite else rng.choice(["Hypergraph", "SimplicialComplex"]))
+        kw = {"iterations": rng.choice([1, 2, 3])}
+        if rng.random() < 0.3:
+            kw["k"] = rng.choice([0.3, np.float64(1.0)])
+        if with_phantom and rng.random() < 0.3:
+            kw["return_phantom_graph"] = True
+        return f"H={desc}, {kw}", lambda: ((build(),), dict(kw))
+    return r
+
+
+def s_spectral_clustering(rng):
+    desc, build, pool, edges = big_net_builder(rng, n=rng.randint(15, 60), cover=True)
+    k = rng.randint(2, 5)
+    kw = {"max_iter": rng.choice([3, 5, 10, 20])}
+    return f"H={desc}, k={k}, {kw}", lambda: ((build(), k), dict(kw))
+
+
+SPARSE = {
+    "fast_random_hypergraph": s_fast_random,
+    "random_hypergraph": s_random_hypergraph,
+    "chung_lu_hypergraph": s_chung_lu,
+    "dcsbm_hypergraph": s_dcsbm,
+    "watts_strogatz_hypergraph": s_watts_strogatz,
+    "shuffle_hyperedges": s_shuffle_hyperedges,
+    "flag_complex": s_flag_complex,
+    "flag_complex_d2": s_flag_complex_d2,
+    "random_flag_complex": s_random_flag_complex,
+    "random_flag_complex_d2": s_random_flag_complex_d2,
+    "random_simplicial_complex": s_random_simplicial_complex,
+    "uniform_HPPM": s_uniform_HPPM,
+    "uniform_HSBM": s_uniform_HSBM,
+    "uniform_erdos_renyi_hypergraph": s_uniform_erdos_renyi,
+    "uniform_hypergraph_configuration_model": s_configuration_model,
+    "random_layout": s_random_layout,
+    "pairwise_spring_layout": s_spring(False),
+    "barycenter_spring_layout": s_spring(True),
+    "weighted_barycenter_spring_layout": s_spring(True),
+    "bipartite_spring_layout": s_spring(False, bipartite=True),
+    "spectral_clustering": s_spectral_clustering,
+}
+# callables whose sparse regime goes through the skip sampling (`geometric`): at least one edge must come out of most such cases
+SKIP_SAMPLERS = ("fast_random_hypergraph", "uniform_erdos_renyi_hypergraph", "uniform_HSBM", "uniform_HPPM", "chung_lu_hypergraph", "dcsbm_hypergraph")
+
+
+def recipe_for(q, regime="small"):
+    n = short_name(q)
+    if regime == "sparse" and n in SPARSE:
+        return SPARSE[n]
+    return RECIPES.get(n)
+
+
+def pick_seed(rng):
+    """(seed, class).  plain: 0, small, anything below 2**32; numpy integers; ints of 2**32 and more."""
+    r = rng.random()
+    if r < 0.2:
+        return 0, "plain"
+    if r < 0.8:
+        return rng.choice([1, rng.randrange(100), rng.randrange(2**32), rng.randrange(2**32), 2**32 - 1]), "plain"
+    if r < 0.9:
+        return rng.choice([np.int64(rng.randrange(2**31)), np.uint32(rng.randrange(2**32)), np.int32(rng.randrange(1000)), np.int64(0)]), "numpy-integer"
+    return rng.choice([2**32, 2**63 + rng.randrange(1000), 2**64 + rng.randrange(2**40)]), "above-2**32"
 
 
 PROBED = [q for q in NAMES if recipe_for(q)]
@@ -386,7 +601,8 @@ def make_step(rng, kind, q, build):
     if kind == "same-fn-other-seed":
         return (kind, q, build, seed, "same parameters")
     if kind == "same-fn-other-params":
-        d, b = recipe_for(q)(rng)
+        heavy = short_name(q) in ("chung_lu_hypergraph", "dcsbm_hypergraph")
+        d, b = recipe_for(q, "sparse" if rng.random() < 0.2 and not heavy else "small")(rng)
         return (kind, q, b, seed, d)
     other = rng.choice([x for x in PROBED if x != q] or PROBED)
     d, b = recipe_for(other)(rng)
@@ -439,14 +655,28 @@ def sched_key(steps):
 # ---------------------------------------------------------------------------------
 # protocol
 # ---------------------------------------------------------------------------------
+ROUNDS = {"quick": 120, "thorough": 18000}
+
+
 def plan(tier):
     n = max(1, len(NAMES))
-    return {"repeat": (100 if tier == "quick" else 20000) * n}
+    return {"repeat": ROUNDS[tier] * n}
 
 
 def floors(tier):
-    per = 85 if tier == "quick" else 17000
-    f = {f"compared:{short_name(q)}": per for q in PROBED}
+    rounds = ROUNDS[tier]
+    f = {f"compared:{short_name(q)}": int(0.6 * rounds) for q in PROBED}
+    for q in PROBED:
+        n = short_name(q)
+        if n in SPARSE:
+            f[f"compared-sparse:{n}"] = int(0.18 * rounds)  # a third of the rounds are sparse / large; some seeds are refused
+        if n in SKIP_SAMPLERS:
+            f[f"sparse-nonempty:{n}"] = int(0.15 * rounds)
+    for c in ("plain", "numpy-integer", "above-2**32"):
+        f[f"compared-seed-class:{c}"] = len(PROBED)
+    if c16.PROBED_GEOMETRIC:
+        for k in ("p=0", "p=1", "1e-12<=p<1e-4", "1e-4<=p<1e-2", "1e-2<=p<1", "numpy-scalar", "->inf"):
+            f[f"geometric:{k}"] = 50
     f["at-most-2-unprobed"] = 1
     for k in ALPHABET:
         f[f"schedule-step:{k}"] = len(PROBED)
@@ -476,7 +706,8 @@ def run_case(mon, kind, idx, rng):
     q = NAMES[idx % len(NAMES)]
     rnd = idx // len(NAMES)
     name = short_name(q)
-    rec = recipe_for(q)
+    regime = "sparse" if rnd % 3 == 2 else "small"
+    rec = recipe_for(q, regime)
     if rec is None:
         mon.note(f"unprobed:{name}")
         return
@@ -487,7 +718,10 @@ def run_case(mon, kind, idx, rng):
         random.seed(rng.randrange(2**32))
         np.random.seed(rng.randrange(2**32))
         desc, build = rec(rng)
-        seed = rng.choice([0, 1, rng.randrange(100), rng.randrange(2**32), rng.randrange(2**32)])
+        seed, seed_class = pick_seed(rng)
+        # a seed that is not a plain int below 2**32 may be refused by random.seed / numpy.random.seed / networkx (TypeError, ValueError):
+        # then both executions have to refuse it
+        refusals = (ValueError, XGIError) if seed_class == "plain" else (ValueError, XGIError, TypeError)
         if rnd < 1 + len(ALPHABET):
             history = []
             schedule = make_schedule(rng, q, build, kinds=[] if rnd == 0 else [ALPHABET[rnd - 1]])
@@ -495,12 +729,14 @@ def run_case(mon, kind, idx, rng):
             history = make_schedule(rng, q, build, maxlen=3)
             schedule = make_schedule(rng, q, build)
         mon.note(f"fn:{name}")
+        mon.note(f"regime:{regime}")
+        mon.note(f"seed-class:{seed_class}")
         mon.note(f"schedule:{sched_key(schedule)}")
         mon.note(f"history:{sched_key(history)}")
         for s in schedule:
             mon.note(f"schedule-step:{s[0]}")
         witness = (
-            f"{q}({desc}, seed={seed})\nhistory before the first call: {show(history)}\n"
+            f"{q}({desc}, seed={seed!r})\nhistory before the first call: {show(history)}\n"
             f"schedule between the two calls: {show(schedule)}"
         )
         run_schedule(mon, history)
@@ -509,7 +745,7 @@ def run_case(mon, kind, idx, rng):
             args, kw = build()
             try:
                 outs.append(("returned", fn(*args, **kw, seed=seed)))
-            except (ValueError, XGIError) as exc:
+            except refusals as exc:
                 outs.append(("raised", type(exc).__name__))
             if i == 0:
                 run_schedule(mon, schedule)
@@ -522,6 +758,11 @@ def run_case(mon, kind, idx, rng):
                 mon.note(f"raised-both:{name}:{r1}")
             return
         mon.note(f"compared:{name}")
+        mon.note(f"compared-seed-class:{seed_class}")
+        if regime == "sparse":
+            mon.note(f"compared-sparse:{name}")
+            if nonempty(r1):
+                mon.note(f"sparse-nonempty:{name}")
         d = differ(r1, r2)
         if d:
             mon.fail(f"{name}|seed|output-differs-on-repeat", f"two calls with equal arguments and seed={seed} differ; {d}", witness)
@@ -531,5 +772,6 @@ def run_case(mon, kind, idx, rng):
         if idx % 97 == 0:
             mon.sample(witness)
     finally:
+        c16.flush_geo(mon)
         random.setstate(st)
         np.random.set_state(npst)
